@@ -525,7 +525,21 @@ func plainPath(p string) bool {
 
 func buildURI(uc *URICase) *protocol.URI {
 	u := &protocol.URI{}
-	switch uc.Hist {
+	hist, setter := uc.Hist, ""
+	if i := strings.IndexByte(hist, '/'); i >= 0 {
+		hist, setter = hist[:i], hist[i+1:] // the query is then replaced through SetQueryStringBytes / Update("?...")
+	}
+	setQuery := func(q string) {
+		switch setter {
+		case "bytes":
+			u.SetQueryStringBytes([]byte(q))
+		case "update":
+			u.Update("?" + q)
+		default:
+			u.SetQueryString(q)
+		}
+	}
+	switch hist {
 	case "reused":
 		u.Parse(nil, []byte(dirtyURI))
 	case "reused-args":
@@ -540,16 +554,16 @@ func buildURI(uc *URICase) *protocol.URI {
 	u.SetPath(string(uc.Path))
 	switch uc.QMode {
 	case "raw":
-		u.SetQueryString(string(uc.Raw))
+		setQuery(string(uc.Raw))
 	case "args":
-		u.SetQueryString("")
+		setQuery("")
 		qa := u.QueryArgs()
 		qa.Reset()
 		for _, p := range uc.Args {
 			qa.Add(string(p.K), string(p.V))
 		}
 	default:
-		u.SetQueryString("")
+		setQuery("")
 	}
 	u.SetHash(string(uc.Hash))
 	return u
@@ -562,7 +576,10 @@ func uriKey(uc *URICase, stage, comp string) string {
 		return "uri|control-byte-in-fragment"
 	case uc.QMode == "raw" && hasCTL(string(uc.Raw)):
 		return "uri|control-byte-in-raw-query"
-	case (uc.Hist == "reused-args" || uc.Hist == "reused-add") && uc.QMode != "args" && strings.HasPrefix(comp, "query"):
+	case strings.HasPrefix(uc.Hist, "reused-a") && uc.QMode != "args" && strings.HasPrefix(comp, "query"):
+		if i := strings.IndexByte(uc.Hist, '/'); i >= 0 {
+			return "uri|query-set-through-" + uc.Hist[i+1:] + "-after-QueryArgs-use|" + stage
+		}
 		return "uri|SetQueryString-after-QueryArgs-use|" + stage
 	}
 	if comp == "" {
@@ -1077,7 +1094,7 @@ func enumQuery(c *mc.Ctx) {
 var (
 	schemes = []string{"http", "https", "HTTP", ""}
 	hosts   = []string{"h", "h:8080", "[::1]:80", "H.Example.COM", "[FE80::1]"}
-	hists   = []string{"fresh", "reused", "reused-args", "reused-add"}
+	hists   = []string{"fresh", "reused", "reused-args", "reused-add", "reused-args/bytes", "reused-args/update", "reused-add/bytes"}
 )
 
 type uriCtx struct {
